@@ -85,6 +85,12 @@ type control struct {
 	args   slip.List
 	argPos int
 	stop   bool
+	// lead is the output column at which out starts and leadNL is true
+	// if the output before out ended with a newline. Both are for
+	// directives processed in a buffer of their own inside a case,
+	// conditional, iteration, or recursive directive.
+	lead   int
+	leadNL bool
 }
 
 type floatFormatter struct {
@@ -105,6 +111,29 @@ type floatFormatter struct {
 func (c *control) Write(p []byte) (n int, err error) {
 	c.out = append(c.out, p...)
 	return len(p), nil
+}
+
+// column returns the output column, the number of bytes after the last
+// start of a line.
+func (c *control) column() int {
+	if i := bytes.LastIndexAny(c.out, "\n\r\f"); 0 <= i {
+		return len(c.out) - i - 1
+	}
+	return c.lead + len(c.out)
+}
+
+// afterNewline returns true if the last character output is a newline.
+func (c *control) afterNewline() bool {
+	if 0 < len(c.out) {
+		return c.out[len(c.out)-1] == '\n'
+	}
+	return c.leadNL
+}
+
+// sub prepares c2 to continue the output of c in a buffer of its own.
+func (c *control) sub(c2 *control) {
+	c2.lead = c.column()
+	c2.leadNL = c.afterNewline()
 }
 
 func (c *control) process() {
@@ -404,7 +433,7 @@ func (c *control) dirAmp(colon, at bool, params []any) {
 			c.invalidDirParam(c.str, c.pos)
 		}
 	}
-	if 0 < len(c.out) && c.out[len(c.out)-1] == '\n' {
+	if c.afterNewline() {
 		n--
 	}
 	for ; 0 < n; n-- {
@@ -458,6 +487,7 @@ func (c *control) dirCase(colon, at bool, params []any) {
 	c2 := *c
 	c2.out = make([]byte, 0, pos-c.pos)
 	c2.end = pos
+	c.sub(&c2)
 	c2.process()
 
 	c.pos = pos + 2 // past ~)
@@ -752,6 +782,7 @@ func (c *control) dirProc(colon, at bool, params []any) {
 		c2.args = args
 		c2.argPos = 0
 	}
+	c.sub(&c2)
 	c2.process()
 	if at {
 		c.argPos = c2.argPos
@@ -1367,7 +1398,6 @@ func (c *control) dirT(colon, at bool, params []any) {
 	var (
 		target int // target offset from 'from'
 		from   int // from the start of the line
-		start  int // start of line
 	)
 	if at {
 		for len(spaces) < colnum {
@@ -1375,26 +1405,14 @@ func (c *control) dirT(colon, at bool, params []any) {
 			colnum -= len(spaces)
 		}
 		c.out = append(c.out, spaces[:colnum]...)
-		start = bytes.LastIndexAny(c.out, "\n\r\f")
-		if start < 0 {
-			from = len(c.out)
-		} else {
-			start++
-			from = len(c.out) - start
-		}
+		from = c.column()
 		if from == from/colinc*colinc {
 			target = from
 		} else {
 			target = from/colinc*colinc + colinc
 		}
 	} else {
-		start = bytes.LastIndexAny(c.out, "\n\r\f")
-		if start < 0 {
-			from = len(c.out)
-		} else {
-			start++
-			from = len(c.out) - start
-		}
+		from = c.column()
 		target = colnum * colinc
 		if target < from {
 			target = from/colinc*colinc + colinc
@@ -1569,6 +1587,7 @@ func (c *control) subProcess(str string) {
 		args:   c.args,
 		argPos: c.argPos,
 	}
+	c.sub(&c2)
 	c2.process()
 	c.out = append(c.out, c2.out...)
 	c.argPos = c2.argPos
@@ -1603,6 +1622,7 @@ func (c *control) dirIter(colon, at bool, params []any) {
 			}
 			c2.argPos = 0
 			c2.pos = start
+			c.sub(&c2)
 			c2.process()
 			c.out = append(c.out, c2.out...)
 			c2.out = c2.out[:0]
@@ -1628,6 +1648,7 @@ func (c *control) dirIter(colon, at bool, params []any) {
 			c2.args = c.objAsList(al, "iteration directive sub-argument")
 			c2.argPos = 0
 			c2.pos = start
+			c.sub(&c2)
 			c2.process()
 			c.out = append(c.out, c2.out...)
 			c2.out = c2.out[:0]
@@ -1639,6 +1660,7 @@ func (c *control) dirIter(colon, at bool, params []any) {
 				break
 			}
 			c2.pos = start
+			c.sub(&c2)
 			c2.process()
 			c.out = append(c.out, c2.out...)
 			c2.out = c2.out[:0]
@@ -1659,6 +1681,7 @@ func (c *control) dirIter(colon, at bool, params []any) {
 				break
 			}
 			c2.pos = start
+			c.sub(&c2)
 			c2.process()
 			c.out = append(c.out, c2.out...)
 			c2.out = c2.out[:0]
